@@ -858,6 +858,220 @@ theorem c11_plain_and_enhanced_agree_with_callbacks (env : Env J S C) (hk : Hook
       | ok u => rw [hgr] at c d; exact Or.inr ⟨_, _, c, d, hpv, hps, rfl, rfl⟩
       | raise e => rw [hgr] at c d; exact Or.inl ⟨e, c, d⟩
 
+/-! ## Audit follow-up: counters, strategy orders, histories -/
+
+/-- The verdict does not depend on the counters: `fold` and `fold_enhanced` called one after the other on one
+    Chaperone (the second call starts from the counters the first one left), or on two different instances whose
+    strategy lists in force are equal, make the same library calls and agree on validity, structure and echoed raw
+    text; and `fold_enhanced` returns the same report from any counter state. -/
+theorem c11_verdict_does_not_depend_on_the_counters (env : Env J S C) (cfg cfg' : Cfg) (st st' : Stats) (raw : Text)
+    (call call' : List Strategy) (heff : effective cfg call = effective cfg' call') :
+    (fold env cfg st raw call).trace = (foldX env cfg' st' raw call').trace ∧
+    (foldX env cfg st raw call).trace = (foldX env cfg' st' raw call').trace ∧
+    ∃ s1 s2 s3 p x, (fold env cfg st raw call).res = .ok (s1, p) ∧ (foldX env cfg' st' raw call').res = .ok (s2, x) ∧
+      (foldX env cfg st raw call).res = .ok (s3, x) ∧ p.valid = x.valid ∧ p.struct = x.struct ∧ p.raw = x.raw := by
+  obtain ⟨htr, st1, p, x1, hp, hx1, hv, hs, hr⟩ := c11_plain_and_enhanced_agree env cfg st raw call
+  obtain ⟨k1, k2⟩ := foldX_counters_irrelevant env cfg cfg' st st' raw call call' heff
+  obtain ⟨r2, hr2⟩ := (c11_total env cfg' st' raw call').2
+  rw [hx1, hr2] at k2
+  simp at k2
+  obtain ⟨s2, x2⟩ := r2
+  simp at k2
+  subst k2
+  exact ⟨by rw [htr, k1], k1, st1, s2, st1, p, x1, hp, hr2, hx1, hv, hs, hr⟩
+
+example : (fold toyEnv (Cfg.new []) Stats.zero rawProse []).trace =
+    (foldX toyEnv (Cfg.new [.strict, .extraction]) ⟨5, 2, fun _ => 1, fun _ => 3⟩ rawProse [.strict, .extraction, .lenient, .repair]).trace :=
+  (c11_verdict_does_not_depend_on_the_counters toyEnv _ _ _ _ _ _ _ rfl).1
+
+/-- Clean JSON for every strategy order: if the raw text is schema-valid JSON and every strategy requested BEFORE
+    STRICT fails on it, the result is the strict one — valid, exactly the structure `model_validate(json.loads(raw))`
+    gives, confidence 1, strategy STRICT, no coercions.  (When an earlier strategy succeeds the fold is still valid —
+    `c11_clean_json_is_accepted` — but the structure is that strategy's: `[EXTRACTION, STRICT]` on `{"a": {"b": 1}}`
+    lets the bare-object pattern pick the inner object; see notes.) -/
+theorem c11_strict_decides_when_earlier_strategies_fail (env : Env J S C) (cfg : Cfg) (st : Stats) (raw : Text)
+    (call pre post : List Strategy) (d : J) (v : S)
+    (hl : env.loads (strip raw) = .ok d) (hval : env.validate d = .ok v)
+    (heff : effective cfg call = pre ++ .strict :: post)
+    (hfail : ∀ s ∈ pre, Fails (attemptX env raw) (·.valid) s) :
+    (∀ st' r, (foldX env cfg st raw call).res = .ok (st', r) →
+      r.valid = true ∧ r.struct = some v ∧ r.confidence = 1 ∧ r.strategyUsed = some .strict ∧ r.coercions = []) ∧
+    (∀ st' p, (fold env cfg st raw call).res = .ok (st', p) → p.valid = true ∧ p.struct = some v) := by
+  have hclean := foldStrictX_clean env raw d v hl hval
+  have hnf : ¬ Fails (attemptX env raw) (·.valid) .strict := by
+    intro hf
+    have := hf ⟨true, some v, none, 1, [], some .strict⟩ (by simp [attemptX, hclean])
+    simp at this
+  rcases foldBoth_spec env cfg st raw call with ⟨tr, hf, _, _⟩ | ⟨tpre, pre', s', post', x, hstrs, hf, hr, hxv, hx, hp⟩
+  · exact absurd (hf .strict (by rw [heff]; simp)) hnf
+  · have hns : ¬ Fails (attemptX env raw) (·.valid) s' := by
+      intro h; have := h x hr; simp [hxv] at this
+    rw [heff] at hstrs
+    obtain ⟨_, hs⟩ := first_success_unique pre pre' .strict s' post post' hstrs hfail hnf hf hns
+    subst hs
+    have hxe : x = ⟨true, some v, none, 1, [], some .strict⟩ := by
+      simp [attemptX, hclean] at hr; exact hr.symm
+    subst hxe
+    constructor
+    · intro st' r h; rw [hx] at h; simp at h; obtain ⟨_, rfl⟩ := h; exact ⟨rfl, rfl, rfl, rfl, rfl⟩
+    · intro st' p h; rw [hp] at h; simp at h; obtain ⟨_, rfl⟩ := h; exact ⟨rfl, rfl⟩
+
+example : effective (Cfg.new [.repair, .strict]) [] = [.repair] ++ .strict :: [] ∧
+    toyEnv.loads (strip rawClean) = .ok 1 ∧ toyEnv.validate 1 = .ok 7 := ⟨rfl, rfl, rfl⟩
+
+/-- Statistics over any history on one Chaperone — `fold`, `fold_enhanced` (hence also the healing loop, which is a
+    sequence of `fold_enhanced` calls) and `reset_statistics`, with the strategy list, the tables, the schema and the
+    registered callbacks changing arbitrarily between the calls, callbacks that raise included: the counters stay
+    consistent (`successful_folds` = sum of the per-strategy successes, successes ≤ attempts per strategy,
+    `successful_folds ≤ total_folds`). -/
+theorem c11_stats_consistent_any_history (ops : List (HistOp J S C)) : (runHist ops).Consistent := by
+  unfold runHist
+  have key : ∀ (ops : List (HistOp J S C)) (st : Stats), st.Consistent → (ops.foldl runHistOp st).Consistent := by
+    intro ops
+    induction ops with
+    | nil => intro st h; exact h
+    | cons op ops ih =>
+      intro st h
+      apply ih
+      cases op with
+      | reset => exact ⟨rfl, fun _ => Nat.le_refl _, Nat.le_refl _⟩
+      | fold env hk cfg raw call => exact (c11_stats_with_callbacks env hk cfg st raw call).2.2 h
+      | foldX env hk cfg raw call =>
+        obtain ⟨_, h2, h3⟩ := c11_stats_with_callbacks env hk cfg st raw call
+        simp only [runHistOp]; rw [h2]; exact h3 h
+  exact key ops Stats.zero ⟨rfl, fun _ => Nat.le_refl _, Nat.le_refl _⟩
+
+example : (runHist [.foldX toyEnv toyHooks (Cfg.new []) rawProse [], .fold toyEnv toyHooksRaising (Cfg.new [.repair]) rawBad [],
+    .fold toyEnv toyHooks (Cfg.new []) [63] []]).total = 3 := rfl
+
+/-- The healing loop's attempt records: with a non-negative `confidence_decay` their confidence is at most 1 (it is the
+    ceiling `max(0, 1 - k·decay)`); with a negative decay the ceiling of a late successful attempt exceeds 1 (the
+    example below) — `confidence_decay` is not among the property's configurations, and the confidence of the returned
+    fold and `final_confidence` stay in [0,1] for every decay (`c11_heal_confidence_unit_and_one_only_strict`). -/
+theorem c11_heal_attempt_records_at_most_one (env : Env J S C) (cfg : Cfg) (st st' : Stats)
+    (decay : Rat) (hd : 0 ≤ decay) (maxRetries : Nat) (gen : Nat → Text) (h : HealOut S C)
+    (hres : (heal env cfg st decay maxRetries gen).res = .ok (st', h)) :
+    ∀ a ∈ h.attempts, 0 ≤ a.confidence ∧ a.confidence ≤ 1 := by
+  have hceil : ∀ k : Nat, healCeiling decay k ≤ 1 := by
+    intro k
+    have hk : (0 : Rat) ≤ (k : Rat) := by exact_mod_cast Nat.zero_le k
+    have : 0 ≤ (k : Rat) * decay := Rat.mul_nonneg hk hd
+    unfold healCeiling ratMax
+    split <;> grind
+  obtain ⟨st2, h2, hres2, hcase⟩ := healFrom_spec env cfg decay gen (maxRetries + 1) 0 st []
+  unfold heal at hres
+  rw [hres2] at hres
+  simp at hres
+  obtain ⟨rfl, rfl⟩ := hres
+  rcases hcase with ⟨_, _, _, _, ha⟩ | ⟨j, _, _, _, _, _, _, _, _, _, _, _, ha⟩
+  · rw [ha]; intro a hmem
+    simp [failedAtts] at hmem
+    obtain ⟨i, _, rfl⟩ := hmem
+    exact ⟨Rat.le_refl, show (0 : Rat) ≤ 1 by decide⟩
+  · rw [ha]; intro a hmem
+    simp [failedAtts] at hmem
+    rcases hmem with ⟨i, _, rfl⟩ | rfl
+    · exact ⟨Rat.le_refl, show (0 : Rat) ≤ 1 by decide⟩
+    · exact ⟨healCeiling_nonneg decay j, hceil j⟩
+
+example : ∃ st' h, (heal toyEnv (Cfg.new []) Stats.zero (-1) 3 (fun k => if k < 1 then rawBad else rawProse)).res = .ok (st', h) ∧
+    h.attempts = [⟨0, false, 0⟩, ⟨1, true, 2⟩] ∧ h.finalConfidence = 9 / 10 := ⟨_, _, rfl, by decide +kernel, by decide +kernel⟩
+
+/-! ## The constructor keeps a non-empty caller list: which instances share their strategy list
+
+`Heap` (Model) is what the correspondence runs on: list objects, and instances that refer to them.  `World` /
+`c11_instances_are_independent` above is the special case of instances that own their list. -/
+
+/-- `Chaperone(strategies=arg)` in a well-formed heap: earlier instances keep their list object and see the same
+    strategies; and either `arg` is a non-empty list object `k` of the caller — then no list object is created and the
+    new instance refers to the caller's own object (no copy: `self.strategies = strategies or […]`), so it shares it
+    with the caller and with every other instance built from it — or `arg` is `None` / an empty list, and the new
+    instance gets a new list object holding the default order, which no earlier instance refers to. -/
+theorem c11_constructor_keeps_a_nonempty_caller_list (h : Heap) (hwf : h.WF) (arg : Option Nat) :
+    (h.construct arg).WF ∧
+    (∀ i < h.insts.length, (h.construct arg).cellOf i = h.cellOf i ∧ (h.construct arg).cfgOf i = h.cfgOf i) ∧
+    ((∃ k l, arg = some k ∧ h.cells[k]? = some l ∧ l ≠ [] ∧ (h.construct arg).cells = h.cells ∧
+        (h.construct arg).cellOf h.insts.length = some k ∧ (h.construct arg).cfgOf h.insts.length = some ⟨l⟩) ∨
+     ((arg = none ∨ ∃ k, arg = some k ∧ (h.cells[k]? = none ∨ h.cells[k]? = some [])) ∧
+        (h.construct arg).cells = h.cells ++ [defaultStrategies] ∧
+        (h.construct arg).cellOf h.insts.length = some h.cells.length ∧
+        (h.construct arg).cfgOf h.insts.length = some ⟨defaultStrategies⟩ ∧
+        ∀ i < h.insts.length, (h.construct arg).cellOf i ≠ some h.cells.length)) := by
+  rcases Heap.construct_cases h arg with ⟨k, l, rfl, hk, hl⟩ | hf
+  · rw [Heap.construct_alias h k l hk hl]
+    have hklt : k < h.cells.length := by
+      rcases Nat.lt_or_ge k h.cells.length with h1 | h1
+      · exact h1
+      · have : h.cells[k]? = none := by simp; omega
+        rw [this] at hk; cases hk
+    refine ⟨?_, ?_, Or.inl ⟨k, l, rfl, hk, hl, rfl, by simp [Heap.cellOf], by simp [Heap.cfgOf, Heap.cellOf, hk]⟩⟩
+    · intro e he
+      simp only [List.mem_append, List.mem_singleton] at he
+      rcases he with he | rfl
+      · exact hwf e he
+      · exact hklt
+    · intro i hi
+      have := Heap.extend_old h hwf [] (k, Stats.zero) i hi
+      simp only [List.append_nil] at this
+      exact ⟨this.1, this.2.1⟩
+  · rw [Heap.construct_fresh h arg hf]
+    refine ⟨?_, ?_, Or.inr ⟨hf, rfl, by simp [Heap.cellOf], by simp [Heap.cfgOf, Heap.cellOf], ?_⟩⟩
+    · intro e he
+      simp only [List.mem_append, List.mem_singleton] at he
+      rcases he with he | rfl
+      · have := hwf e he; simp; omega
+      · simp
+    · intro i hi
+      have := Heap.extend_old h hwf [defaultStrategies] (h.cells.length, Stats.zero) i hi
+      exact ⟨this.1, this.2.1⟩
+    · intro i hi
+      obtain ⟨h1, _, k, hk, hlt⟩ := Heap.extend_old h hwf [defaultStrategies] (h.cells.length, Stats.zero) i hi
+      rw [h1, hk]
+      intro heq; cases heq; omega
+
+/-- An in-place edit of list object `k` — by the caller through its own reference, or through `instance.strategies` of
+    any instance that refers to it — is seen by exactly the instances that refer to `k`: their strategy list is the
+    edited one; every other instance sees what it saw before; nobody's reference changes.  In particular two Chaperones
+    built from one non-empty caller list see each other's edits, and instances built from `None`, `[]` or distinct
+    lists do not. -/
+theorem c11_in_place_edit_reaches_exactly_the_holders (h : Heap) (k : Nat) (t : Tune) (i : Nat) :
+    (h.mutate k t).cellOf i = h.cellOf i ∧
+    (h.mutate k t).cfgOf i = if h.cellOf i = some k then (h.cfgOf i).map (·.tune t) else h.cfgOf i := by
+  unfold Heap.mutate
+  cases hk : h.cells[k]? with
+  | none =>
+    refine ⟨rfl, ?_⟩
+    by_cases hc : h.cellOf i = some k
+    · simp [hc, Heap.cfgOf, hk]
+    · simp [hc]
+  | some l =>
+    have hklt : k < h.cells.length := by
+      rcases Nat.lt_or_ge k h.cells.length with h1 | h1
+      · exact h1
+      · have : h.cells[k]? = none := by simp; omega
+        rw [this] at hk; cases hk
+    refine ⟨rfl, ?_⟩
+    by_cases hc : h.cellOf i = some k
+    · have hc' : Heap.cellOf ⟨h.cells.set k (Cfg.tune ⟨l⟩ t).strategies, h.insts⟩ i = some k := hc
+      have hl : h.cells[k] = l := by
+        have := List.getElem?_eq_getElem hklt; rw [this] at hk; exact Option.some.inj hk
+      simp [hc, Heap.cfgOf, hc', hklt]
+      rw [hl]
+    · have hc' : Heap.cellOf ⟨h.cells.set k (Cfg.tune ⟨l⟩ t).strategies, h.insts⟩ i = h.cellOf i := rfl
+      simp only [hc, if_false, Heap.cfgOf, hc']
+      cases hci : h.cellOf i with
+      | none => rfl
+      | some k' =>
+        have hne : k ≠ k' := by intro e; subst e; exact hc hci
+        simp [List.getElem?_set_ne hne]
+
+/-- two Chaperones built from the caller's list `[REPAIR]`, a third from `None`; the first appends STRICT to its
+    `strategies`: the second sees it, the third does not -/
+example :
+    let h := ((((Heap.empty.newList [.repair]).construct (some 0)).construct (some 0)).construct none).mutate 0 (.append .strict)
+    h.cfgOf 0 = some ⟨[.repair, .strict]⟩ ∧ h.cfgOf 1 = some ⟨[.repair, .strict]⟩ ∧
+    h.cfgOf 2 = some ⟨defaultStrategies⟩ := by intro h; exact ⟨rfl, rfl, rfl⟩
+
 /-! ## The tables and constants the model uses are the ones in the source (regenerated every run) -/
 
 /-- The extraction table, the repair table, the default strategy order, the members of `FoldingStrategy` and
